@@ -370,6 +370,10 @@ def simulated_anneal_tree(
         if progbar:
             pbar.update()
 
+    # the tree structure has changed: invalidate any compiled contractions
+    # and explicit contraction indices that refer to replaced intermediates
+    tree.reset_contraction_indices()
+
     return tree
 
 
